@@ -77,6 +77,10 @@ func (unpacker *RtpUnpackerAvcHevc) TryUnpackOne(list *RtpPacketList) (unpackedF
 		// skip后：
 		// rtp中的数据格式 [<2字节的nalu长度>, <nalu>, <2字节的nalu长度>, <nalu> ...]
 		// 转变后的数据格式 [<4字节的nalu长度>, <nalu>, <4字节的nalu长度>, <nalu> ...]
+		if uint32(len(first.Packet.Body())) < skip {
+			Log.Errorf("[%p] invalid STAP-A/AP packet. len=%d", unpacker, len(first.Packet.Body()))
+			return false, 0
+		}
 		buf := first.Packet.Body()[skip:]
 
 		// 使用两次遍历，第一次遍历找出总大小，第二次逐个拷贝，目的是使得内存块一次就申请好，不用动态扩容造成额外性能开销
@@ -215,6 +219,10 @@ func (unpacker *RtpUnpackerAvcHevc) TryUnpackOne(list *RtpPacketList) (unpackedF
 
 func calcPositionIfNeededAvc(pkt *RtpPacket) {
 	b := pkt.Body()
+	// 注意，body长度来自对端，长度不够的包不设置position（之后会被当作无效包丢弃）
+	if len(b) < 1 || (avc.ParseNaluType(b[0]) == NaluTypeAvcFua && len(b) < 2) {
+		return
+	}
 
 	// rfc3984 5.3.  NAL Unit Octet Usage
 	//
@@ -289,6 +297,9 @@ func calcPositionIfNeededAvc(pkt *RtpPacket) {
 
 func calcPositionIfNeededHevc(pkt *RtpPacket) {
 	b := pkt.Body()
+	if len(b) < 2 || (hevc.ParseNaluType(b[0]) == NaluTypeHevcFua && len(b) < 3) {
+		return
+	}
 
 	// +---------------+---------------+
 	// |0|1|2|3|4|5|6|7|0|1|2|3|4|5|6|7|
